@@ -6,6 +6,7 @@ import BqVerif.Proofs.CircRel
 import BqVerif.Proofs.CircWhole
 import BqVerif.Proofs.CircReplace
 import BqVerif.Proofs.CircBatch
+import BqVerif.Proofs.CircSem
 /-! # C04 — Circuit editing calls have their documented effect on program order -/
 namespace BqVerif.C04
 open BqVerif.Circ
@@ -213,5 +214,39 @@ example :
         | none => false) = true ∧
       (c.batchReplace items).1.cycles =
         [[⟨1, [], [0], [2]⟩], [⟨8, [], [1, 0], [2, 2]⟩], [⟨3, [], [1], [2]⟩]] := by decide
+
+/-- **S2, relabelling conjugates the unitary** (list level): in any monoid semantics with a
+relabelling action `act` (think `U ↦ P U P†` for the qudit permutation matrix `P`) that is a monoid
+homomorphism and commutes with the gate semantics, the relabelled operation sequence denotes the
+action on the original denotation. -/
+theorem C04_renumber_conjugates {M : Type} [Monoid M] (sem : Op → M) (act : M → M)
+    (h1 : act 1 = 1) (hmul : ∀ a b, act (a * b) = act a * act b) (ρ : Nat → Nat)
+    (hsem : ∀ o, sem (o.relabel ρ) = act (sem o)) (l : List Op) :
+    den sem (l.map (Op.relabel ρ)) = act (den sem l) :=
+  den_map_relabel sem act h1 hmul ρ hsem l
+
+/-- … and for the call itself: `renumber_qudits(perm)` with a valid permutation succeeds and the
+new circuit — in the order ITS iterator picks, which differs from the relabelled old order —
+denotes `act` of the old denotation (`permFun` is `perm` as a function, identity above the width). -/
+theorem C04_renumber_qudits_conjugates {M : Type} [Monoid M] (sem : Op → M)
+    (hcomm : ∀ a b, Indep a b → sem a * sem b = sem b * sem a) (act : M → M) (h1 : act 1 = 1)
+    (hmul : ∀ a b, act (a * b) = act a * act b) (c : Circ) (perm : List Nat) (hinv : c.Inv)
+    (hok : permOk c.numQudits perm = true)
+    (hsem : ∀ o, sem (o.relabel (permFun c.numQudits perm)) = act (sem o)) :
+    (c.renumber perm).2 = .ok () ∧
+      den sem (c.renumber perm).1.iter = act (den sem c.iter) :=
+  renumber_conjugates sem hcomm act h1 hmul c perm hinv hok hsem
+
+-- non-vacuity: the hypotheses on (sem, act) are satisfiable in every monoid; a valid permutation
+example {M : Type} [Monoid M] :
+    let sem : Op → M := fun _ => 1
+    let act : M → M := id
+    (∀ a b, Indep a b → sem a * sem b = sem b * sem a) ∧ act 1 = 1 ∧
+      (∀ a b, act (a * b) = act a * act b) ∧ ∀ ρ o, sem (o.relabel ρ) = act (sem o) :=
+  ⟨fun _ _ _ => rfl, rfl, fun _ _ => rfl, fun _ _ => rfl⟩
+example :
+    let c : Circ := ⟨[2, 3], [[⟨6, [], [0, 1], [2, 3]⟩], [⟨4, [7], [1], [3]⟩]]⟩
+    c.invB = true ∧ permOk c.numQudits [1, 0] = true ∧
+      (c.renumber [1, 0]).1 = ⟨[3, 2], [[⟨6, [], [1, 0], [2, 3]⟩], [⟨4, [7], [0], [3]⟩]]⟩ := by decide
 
 end BqVerif.C04
